@@ -71,6 +71,11 @@ class Ctx:
         self.undecided.append({"rule": rule, "site": site, "why": why})
         self.obligations.append({"rule": rule, "site": site, "status": "undecided", "note": why})
 
+    def unrecognised(self, rule, site, what):
+        """the construct a rule needs to judge could not be identified: the rule cannot decide (exit 2), which is
+        deliberately NOT a violation - a behaviour-preserving rewrite must never raise an alarm"""
+        self.undecided_site(rule, site, "construct not recognised: " + what)
+
     def advisory(self, rule, site, message):
         self.advisories.append({"rule": rule, "site": site, "message": message})
 
